@@ -20,6 +20,7 @@ func main() {
 	tier := flag.String("tier", "quick", "tier")
 	seed := flag.Uint64("seed", 1, "base seed")
 	worker := flag.Int("worker", 0, "worker index")
+	workers := flag.Int("workers", 1, "number of workers (the systematic sweep, if any, is split over them)")
 	dur := flag.Duration("duration", 10*time.Second, "wall-clock budget")
 	maxRuns := flag.Int("runs", 0, "maximum number of runs (0 = by duration)")
 	shrinkFor := flag.Duration("shrink", 60*time.Second, "budget for minimising one violation")
@@ -89,6 +90,7 @@ func main() {
 		Opts:     core.Opts{Prop: *prop, Scenario: *scenario, Tier: *tier, Known: knownSet},
 		Seed:     *seed,
 		Worker:   *worker,
+		Workers:  *workers,
 		Duration: *dur, MaxRuns: *maxRuns, ShrinkFor: *shrinkFor, MaxViol: 3,
 	})
 	b, _ := json.MarshalIndent(rep, "", " ")
